@@ -1,4 +1,4 @@
-import Afkak.Generated.Consts
+import Afkak.Generated.PartitionerConsts
 /-!
 # Murmur2: the Python function as written, and the Java reference
 
